@@ -98,16 +98,30 @@ def detect(d, checks, scale=None):
             env = ("VERIF_SCALE=%s " % scale) if scale else ""
             r = sh(env + "./check %s quick" % c, cwd=VERIF)
             viol = [l for l in r.stdout.splitlines() if l.startswith("violation:")]
+            paths = [l.split("replay=", 1)[1].strip() for l in r.stdout.splitlines()
+                     if l.startswith("VIOLATION ") and "replay=" in l]
             out[c] = {
                 "exit": r.returncode,
                 "verdict": {0: "MISSED (exit 0)", 1: "CAUGHT"}.get(r.returncode, "HARNESS-ERROR"),
                 "first_violation": viol[0][:400] if viol else None,
             }
+            if paths:
+                # the minimised replay file must reproduce the violation in a fresh process ...
+                rr = sh("./check replay %s" % paths[0], cwd=VERIF)
+                out[c]["replay_file"] = paths[0]
+                out[c]["replay_on_patched_tree_exit"] = rr.returncode
     finally:
         sh("git checkout -- .", cwd=REPO)
         st = sh("git status --porcelain", cwd=REPO).stdout.strip()
         if st:
             raise SystemExit("could not restore /repo: " + st)
+    # ... and must not fail on the unchanged tree
+    for c, v in out.items():
+        if v.get("replay_file"):
+            rr = sh("./check replay %s" % v["replay_file"], cwd=VERIF)
+            v["replay_on_unchanged_tree_exit"] = rr.returncode
+            v["replay_ok"] = (v["replay_on_patched_tree_exit"] == 1 and rr.returncode == 0)
+            v["replay_file"] = os.path.basename(v["replay_file"])
     return out
 
 
@@ -144,7 +158,7 @@ def main():
             meta["detection"] = detect(d, checks)
             save_meta(d, meta)
             print(name, meta.get("verification", {}).get("confirmed"),
-                  {k: v["verdict"] for k, v in meta["detection"].items()})
+                  {k: (v["verdict"], v.get("replay_ok")) for k, v in meta["detection"].items()})
             sys.stdout.flush()
         sh("./check build", cwd=VERIF)
         # evidence files were rewritten by runs against patched trees: put the committed ones back
